@@ -908,7 +908,82 @@ pub fn scenarios(thorough: bool) -> Vec<(KadScenario, u8)> {
     v
 }
 
+/// Back-pressure on the user's event channel: a node that knows nobody starts `capacity + 5` lookups (each fails at once)
+/// while its user does not read the handle; the user then drains it. Every query id must get exactly one terminal event
+/// — the protocol has to wait for room rather than drop a report.
+fn failures_reach_a_user_that_does_not_read(ctx: &mut Ctx) {
+    let result = std::thread::spawn(|| -> Result<(usize, usize), Viol> {
+        let rt = crate::env::driver::runtime(16);
+        let _g = rt.enter();
+        let mut w = World::new();
+        let (cfg, mut handle) = KadConfigBuilder::new().with_replication_factor(REPLICATION).build();
+        let l = w
+            .add_node(160, litep2p::config::ConfigBuilder::new().with_libp2p_kademlia(cfg).with_keep_alive_timeout(Duration::from_secs(3600)))
+            .map_err(|e| Viol::new("machinery/clogged-kademlia-user", e))?;
+        w.run_to_quiescence(100_000);
+        let capacity = litep2p::verif::DEFAULT_CHANNEL_SIZE;
+        let total = capacity + 5;
+        let started: Arc<Mutex<Vec<usize>>> = Default::default();
+        let events: Arc<Mutex<Vec<(usize, &'static str)>>> = Default::default();
+        let (go_tx, mut go_rx) = tokio::sync::mpsc::unbounded_channel::<()>();
+        let (st2, ev2) = (started.clone(), events.clone());
+        w.spawn_for(l, "kad-user", async move {
+            for i in 0..total {
+                let qid = match i % 3 {
+                    0 => handle.find_node(crate::util::peer(990 + i as u64)).await,
+                    1 => handle.get_record(RecordKey::from(KEY.to_vec()), Quorum::One).await,
+                    _ => handle.get_providers(RecordKey::from(KEY.to_vec())).await,
+                };
+                st2.lock().push(qid.0);
+            }
+            // busy elsewhere until told to read
+            let _ = go_rx.recv().await;
+            while let Some(ev) = handle.next().await {
+                if let LLog::Event { name, qid: Some(q), .. } = event_entry(&ev) {
+                    if is_terminal(name) {
+                        ev2.lock().push((q, name));
+                    }
+                }
+            }
+        });
+        w.run_to_quiescence(5_000_000);
+        if started.lock().len() != total {
+            return Err(Viol::new("machinery/clogged-kademlia-user", format!("{} of {total} operations were started", started.lock().len())));
+        }
+        let _ = go_tx.send(());
+        w.run_to_quiescence(5_000_000);
+        let ev = events.lock().clone();
+        let mut missing = 0usize;
+        let mut twice = 0usize;
+        for q in started.lock().iter() {
+            match ev.iter().filter(|(x, _)| x == q).count() {
+                0 => missing += 1,
+                1 => {}
+                _ => twice += 1,
+            }
+        }
+        if twice > 0 {
+            return Err(Viol::new("kad/two-terminal-events/event-channel-full", format!("{twice} of {total} operations got more than one terminal event")));
+        }
+        if missing > 0 {
+            return Err(Viol::new(
+                "kad/no-terminal-event/event-channel-full",
+                format!("{missing} of {total} operations never got a terminal event: they were decided while the user's event channel held {capacity} unread events"),
+            ));
+        }
+        Ok((total, w.driver.steps as usize))
+    })
+    .join();
+    match result {
+        Ok(Ok((n, steps))) => ctx.sub("failures_reach_a_user_that_does_not_read", serde_json::json!({"operations": n, "driver_steps": steps, "held": true})),
+        Ok(Err(v)) if v.signature.starts_with("machinery/") => ctx.machinery_error(format!("{}: {}", v.signature, v.what)),
+        Ok(Err(v)) => ctx.violation(crate::report::Violation { signature: v.signature, what: v.what, replay: serde_json::json!({"engine": "scripted", "scenario": "failures_reach_a_user_that_does_not_read"}) }),
+        Err(_) => ctx.machinery_error("clogged Kademlia user scenario panicked"),
+    }
+}
+
 pub fn run(ctx: &mut Ctx) {
+    failures_reach_a_user_that_does_not_read(ctx);
     let thorough = ctx.tier == crate::report::Tier::Thorough;
     let scns = scenarios(thorough);
     ctx.cov("programs", scns.len() as u64);
